@@ -33,6 +33,7 @@ uint64_t wl_blocks_of(const void *th) {
 }
 void wl_set_probe_cb(mvsim_probe_cb_t cb) { extra_cb = cb; }
 
+long wl_def_stack_extra;   /* bytes added to the default stack size of the next run (sizes that are not a multiple of 16) */
 void wl_begin(mvsim_runcfg *cfg, long nworkers, long def_stack_kb, long queue_size, int parent_first) {
   cfg->queue_size = (int)queue_size;
   setenv("MYTH_CHILD_FIRST", parent_first ? "0" : "1", 1);
@@ -42,7 +43,8 @@ void wl_begin(mvsim_runcfg *cfg, long nworkers, long def_stack_kb, long queue_si
   myth_globalattr_t ga;
   myth_globalattr_init(&ga);
   myth_globalattr_set_n_workers(&ga, (size_t)nworkers);
-  myth_globalattr_set_stacksize(&ga, (size_t)(def_stack_kb ? def_stack_kb : 32) * 1024);
+  myth_globalattr_set_stacksize(&ga, (size_t)(def_stack_kb ? def_stack_kb : 32) * 1024 + (size_t)wl_def_stack_extra);
+  wl_def_stack_extra = 0;
   myth_globalattr_set_bind_workers(&ga, 0);
   myth_init_ex(&ga);
   MVH_CHECK(myth_get_num_workers() == nworkers, "C15-NWORKERS", "myth_get_num_workers()=%d, requested %ld", myth_get_num_workers(), nworkers);
